@@ -47,6 +47,43 @@ def build_harness(work, pkg='store'):
     return out
 
 
+class Crash(tuple):
+    """(shard, rc, log tail, culprit scenario id, kind); kind: 'fatal' = the store called logger.Fatalf (os.Exit(1) in
+    production), 'store-panic' = a panic raised inside the store's own code, 'harness' = anything else"""
+    def __new__(cls, *a):
+        return super().__new__(cls, a)
+    culprit = property(lambda self: self[3])
+    kind = property(lambda self: self[4])
+
+
+def classify_crash(log):
+    i = log.find('panic:')
+    if i < 0:
+        return 'harness'
+    blk = log[i:i + 6000]
+    if 'FATAL:' in blk.split('\n', 1)[0] or 'vFatal' in blk.split('\n', 1)[0]:
+        return 'fatal'
+    # first frame of the panicking goroutine that belongs to the repository
+    for line in blk.split('\n'):
+        m = re.match(r'\s+(/\S+\.go):\d+', line)
+        if m and '/gobeansdb/' not in m.group(1) and not m.group(1).startswith(REPO):
+            continue
+        if m:
+            return 'harness' if 'zz_verif' in m.group(1) else 'store-panic'
+    return 'harness'
+
+
+def crash_verdicts(crashed, pid):
+    """a store that kills itself (Fatalf) or panics in its own code while a scenario runs is a violation of the property
+    under check; a crash of the harness itself is inconclusive"""
+    out = []
+    for c in crashed:
+        if c.kind == 'harness' or c.culprit is None:
+            raise Inconclusive('harness process died (%s): %s' % (c.kind, c[2][-1200:]))
+        out.append({'sid': c.culprit, 'n': 0, 'check': '%s_StoreDied_%s' % (pid, c.kind.replace('-', '_')), 'kf': ''})
+    return out
+
+
 # ----------------------------------------------------------------------------- run
 def run_scenarios(testbin, scenarios, work, pkg='store', shards=NCPU, timeout=900, runname='TestVerifRun'):
     """Run scenarios (list of dicts) on the real code; returns {sid: [events]} and raw stats."""
@@ -90,7 +127,10 @@ def run_scenarios(testbin, scenarios, work, pkg='store', shards=NCPU, timeout=90
                 if cur is not None:
                     traces[cur].append(e)
         if rc != 0:
-            crashed.append((i, rc, open(os.path.join(work, 'run-%d.log' % i)).read()[-2000:]))
+            log = open(os.path.join(work, 'run-%d.log' % i), errors='replace').read()
+            done = {sid for sid, evs in traces.items() if evs and evs[-1].get('a') == 'End'}
+            culprit = next((sc['id'] for sc in part if sc['id'] not in done), None)
+            crashed.append(Crash(i, rc, log[-2500:], culprit, classify_crash(log)))
         shutil.rmtree(os.path.join(work, 'run-%d' % i), ignore_errors=True)
     return traces, crashed
 
@@ -245,7 +285,21 @@ def normalize_conc(events):
     return out
 
 
-def tlc_validate_conc(trace_events, rundir, timeout=1800):
+def normalize_lock(events):
+    """micro events (hook points) of the write path and the flush path for Trace_Lock.tla"""
+    keep = {'w.lock', 'w.readold', 'w.append', 'tree.set', 'hint.set', 'w.unlock', 'f.lock', 'f.snap', 'f.written',
+            'f.detach', 'f.unlock'}
+    out = []
+    for e in events:
+        a = e.get('a')
+        if a == 'Reset':
+            out.append({'a': 'Reset', 'n': e['n'], 'sid': e['sid'], 'keys': e['conf']['keys']})
+        elif a in keep and e.get('l') == 2:
+            out.append({'a': a, 'n': e['n'], 'p': e.get('p') or 'main', 'gc': bool(e.get('gc'))})
+    return out
+
+
+def tlc_validate_conc(trace_events, rundir, timeout=1800, module='Trace_Conc'):
     os.makedirs(rundir, exist_ok=True)
     with open(os.path.join(rundir, 'trace.ndjson'), 'w') as f:
         for e in trace_events:
@@ -254,11 +308,11 @@ def tlc_validate_conc(trace_events, rundir, timeout=1800):
     for e in trace_events:
         if e['a'] == 'Reset':
             keys.update(e['keys'])
-        if 'p' in e:
+        if e.get('p'):
             procs.add(e['p'])
     q = lambda S: ', '.join('"%s"' % x for x in sorted(S))
-    cfgtext = open(os.path.join(SPEC, 'Trace_Conc.cfg')).read().replace('%KEYS%', q(keys)).replace('%PROCS%', q(procs or {'c1'}))
-    r = tlc_run('Trace_Conc', cfgtext, rundir, workers=1, timeout=timeout)
+    cfgtext = open(os.path.join(SPEC, module + '.cfg')).read().replace('%KEYS%', q(keys)).replace('%PROCS%', q(procs or {'c1'}))
+    r = tlc_run(module, cfgtext, rundir, workers=1, timeout=timeout)
     out = r['out']
     res = {'bad': [], 'drift': [], 'lead': [], 'consumed': 0, 'total': len(trace_events), 'accepted': False, 'out': out,
            'wall': r['wall'], 'states': r['distinct']}
